@@ -116,8 +116,12 @@ void build(JsonVariant dst, const Val& v) {
         dst.set(v.s);
       break;
     case K::Raw: {
-      if (v.s.size() >= 2 && (unsigned char)v.s[0] == 0xC4 && size_t((unsigned char)v.s[1]) + 2 == v.s.size())
-        dst.set(MsgPackBinary(v.s.data() + 2, v.s.size() - 2));
+      std::string payload;
+      int8_t type = 0;
+      if (asBin(v.s, payload))
+        dst.set(MsgPackBinary(payload.data(), payload.size()));
+      else if (asExt(v.s, type, payload))
+        dst.set(MsgPackExtension(type, payload.data(), payload.size()));
       else
         dst.set(serialized(v.s.data(), v.s.size()));
       break;
@@ -531,6 +535,7 @@ Plan generate(const std::string& mode, uint64_t seed, uint64_t run) {
   g.maxStr = 50;
   g.allowRaw = !mp;
   g.allowBin = mp;
+  g.binEdges = mp;
   g.allowLinked = true;
   g.allowNulInStr = true;
   g.allowNulInKey = true;
